@@ -50,13 +50,13 @@ Proof.
 Qed.
 
 Lemma holds_chain_model ml ms ht srcs sys pd pv fk fv :
-  let ss := map mk_source srcs in
+  let ss := map (mk_source ht) srcs in
   holds_chain ml ms ht srcs sys pd pv fk fv
     (fst (comp_get (table_H ht) ml ms 0 ss sys pd pv)) (snd (comp_get (table_H ht) ml ms 0 ss sys pd pv))
     (fst (comp_find 0 ss fk fv)) (snd (comp_find 0 ss fk fv)) = [].
 Proof.
   intros ss. subst ss. rewrite comp_get_fold, comp_find_spec.
-  destruct (find_spec 0 (map mk_source srcs) fk fv) as [sl sr] eqn:Ef.
+  destruct (find_spec 0 (map (mk_source ht) srcs) fk fv) as [sl sr] eqn:Ef.
   unfold holds_chain. rewrite Ef. cbn [fst snd].
   rewrite gres_eqb_refl, (list_eqb_refl' call_eqb) by apply call_eqb_refl.
   rewrite (list_eqb_refl' Nat.eqb) by apply Nat.eqb_refl. now rewrite fres_eqb_refl.
@@ -66,8 +66,8 @@ Lemma holds_hist_model ml ms ht steps : holds_hist ml ms ht steps (hist_model ml
 Proof.
   unfold hist_model. induction steps as [|st r IH]; cbn [map holds_hist]; [reflexivity|].
   pose proof (holds_chain_model ml ms ht (st_srcs st) (st_sys st) (st_pd st) (st_pv st) (st_fk st) (st_fv st)) as G. cbn zeta in G.
-  destruct (comp_get (table_H ht) ml ms 0 (map mk_source (st_srcs st)) (st_sys st) (st_pd st) (st_pv st)) as [glog gres].
-  destruct (comp_find 0 (map mk_source (st_srcs st)) (st_fk st) (st_fv st)) as [flog fres].
+  destruct (comp_get (table_H ht) ml ms 0 (map (mk_source ht) (st_srcs st)) (st_sys st) (st_pd st) (st_pv st)) as [glog gres].
+  destruct (comp_find 0 (map (mk_source ht) (st_srcs st)) (st_fk st) (st_fv st)) as [flog fres].
   cbn [fst snd] in G. now rewrite G, IH.
 Qed.
 
@@ -81,10 +81,10 @@ Proof.
     cbn [valid run_model].
   - intros [Wa Wb]. cbn [holds]. now apply holds_merge_model.
   - intros _. pose proof (holds_chain_model ml ms ht srcs sys pd pv fk fv) as G. cbn zeta in G.
-    destruct (comp_get (table_H ht) ml ms 0 (map mk_source srcs) sys pd pv) as [glog gres].
-    destruct (comp_find 0 (map mk_source srcs) fk fv) as [flog fres]. exact G.
+    destruct (comp_get (table_H ht) ml ms 0 (map (mk_source ht) srcs) sys pd pv) as [glog gres].
+    destruct (comp_find 0 (map (mk_source ht) srcs) fk fv) as [flog fres]. exact G.
   - intros E. cbn [holds]. unfold holds_assoc. now rewrite E.
-  - intros _. cbn [holds]. apply holds_hist_model.
+  - intros E. cbn [holds]. rewrite holds_hist_model. cbn [app]. now rewrite E.
   - intros _. cbn [holds]. rewrite cons_eqb_refl. cbn [app].
     destruct (built (construct fexc tries fails)); [apply holds_hist_model | reflexivity].
 Qed.
